@@ -312,6 +312,55 @@ fn exec(sc: &Scenario) -> Report {
             }
             r.probe("keys_compared");
         }
+        // a custom key wins over a built-in key of the same name, and a key registered a second
+        // time replaces the tracker registered first (both at the frozen instant)
+        let cleared = finished && pb.is_finished() && term.transcript().last().map_or(true, |l| l.is_empty());
+        if r.violation.is_none() && !cleared {
+            let name = ["pos", "len", "eta", "msg", "percent", "elapsed"][(sc.seed % 6) as usize];
+            let drawn = call(|| {
+                style_gen += 1;
+                let st = mk_style_gen(name, &obs, &aux, sc.c("two_line") == 1, style_gen)
+                    .with_key(name, |_: &indicatif::ProgressState, w: &mut dyn std::fmt::Write| write!(w, "#own#").unwrap());
+                pb.set_style(st);
+                pb.force_draw();
+            });
+            if let Err(p) = drawn {
+                r.violate("C11.no_panic", format!("drawing a custom key named {name} panicked: {p}"));
+                return r;
+            }
+            let line = term.transcript().last().cloned().unwrap_or_default();
+            if !line.contains("<#own#>") {
+                r.violate("C11.custom_key_state", format!("a custom key registered under the name {name:?} must be what {{{name}}} shows (\"#own#\"); the frame shows {line:?}"));
+                return r;
+            }
+            r.probe("custom_key_shadows_builtin");
+            let drawn = call(|| {
+                style_gen += 1;
+                let st = pb.style().with_key(
+                    "obs",
+                    Obs {
+                        shared: obs.clone(),
+                        text: String::new(),
+                        gen: style_gen,
+                    },
+                );
+                pb.set_style(st);
+                pb.force_draw();
+            });
+            if let Err(p) = drawn {
+                r.violate("C11.no_panic", format!("registering a custom key again panicked: {p}"));
+                return r;
+            }
+            let wg = obs.lock().unwrap().last_write_gen;
+            if wg != style_gen {
+                r.violate(
+                    "C11.custom_key_state",
+                    format!("a custom key registered a second time under the same name (pb.style().with_key(..)) must replace the first tracker: the draw wrote tracker #{wg}, the one registered last is #{style_gen}"),
+                );
+                return r;
+            }
+            r.probe("custom_key_registered_again");
+        }
         // custom keys are ticked together with the bar also when the ticks come from a steady ticker
         if sc.c("ticker_phase") == 1 && !pb.is_finished() && r.violation.is_none() {
             let d_ns: u64 = 20_000_000;
